@@ -102,7 +102,7 @@ class Ctx:
                 return n
         return prog.fold(_ast.fix_missing_locations(T().visit(rec(e))), m, c)
 
-    def model_calls(self, extra=None, sym_map=None, max_depth: int = 4):
+    def model_calls(self, extra=None, sym_map=None, max_depth: int = 4, classes=None, module=None):
         """A call_value for the evaluator that steps INTO methods of the analysed program: a call `obj.m(args)` whose receiver is a model
         object tagged with its class (Obj(_cls=<ClassInfo>)) evaluates the body of the method the MRO selects, on the same model
         (interprocedural finite-model evaluation; properties with a single `return` are read the same way via model_attr).
@@ -115,7 +115,7 @@ class Ctx:
 
         def run_method(m, recv, call, ev, depth):
             params = [a.arg for a in m.node.args.args]
-            is_static = any(isinstance(d, _ast.Name) and d.id == "staticmethod" for d in m.node.decorator_list)
+            is_static = recv is None or any(isinstance(d, _ast.Name) and d.id == "staticmethod" for d in m.node.decorator_list)
             env = {}
             names = params if is_static else params[1:]
             if not is_static and params:
@@ -148,7 +148,23 @@ class Ctx:
                 v = extra(call, ev)
                 if v is not _oe.NOT_MODELLED:
                     return v
+            if depth < max_depth and module is not None and isinstance(call.func, _ast.Name) and call.func.id not in ev.env:
+                # a plain function of the analysed module (a shared predicate such as check_range): stepped into
+                try:
+                    fi = ctx.func(module, call.func.id)
+                except Exception:  # noqa: BLE001
+                    fi = None
+                if fi is not None and not fi.node.decorator_list:
+                    return run_method(fi, None, call, ev, depth)
+                return _oe.NOT_MODELLED
             if depth >= max_depth or not isinstance(call.func, _ast.Attribute):
+                return _oe.NOT_MODELLED
+            if classes and isinstance(call.func.value, _ast.Name) and call.func.value.id in classes and call.func.value.id not in ev.env:
+                # ClassName.static_or_class_method(...)
+                k0 = classes[call.func.value.id]
+                m0 = prog.find_method(k0, call.func.attr)
+                if m0 is not None and any(isinstance(d, _ast.Name) and d.id in ("staticmethod", "classmethod") for d in m0.node.decorator_list):
+                    return run_method(m0, _oe.Obj(_cls=k0), call, ev, depth)
                 return _oe.NOT_MODELLED
             try:
                 recv = ev.ev(call.func.value)
@@ -162,6 +178,33 @@ class Ctx:
                 return _oe.NOT_MODELLED
             return run_method(m, recv, call, ev, depth)
         return cv
+
+    def new_helpers_called(self, fn):
+        """Module-level functions / methods of fn's class that fn calls and that do not exist in the reference tree (helpers a
+        refactoring extracted): rules that describe `fn` may have to look into them."""
+        import ast as _ast
+        from .core import reflocals as _rl
+        ref = _rl.reference().get(fn.module.relpath) or {}
+        known = set(ref.get("__functions__", []))
+        out = []
+        for c in _ast.walk(fn.node):
+            if not isinstance(c, _ast.Call):
+                continue
+            cand = None
+            if isinstance(c.func, _ast.Name):
+                cand = self.prog.functions.get(f"{fn.module.relpath}::{c.func.id}") if hasattr(self.prog, "functions") else None
+                if cand is None:
+                    try:
+                        cand = self.func(fn.module.relpath, c.func.id)
+                    except Exception:  # noqa: BLE001
+                        cand = None
+                key = c.func.id
+            elif isinstance(c.func, _ast.Attribute) and isinstance(c.func.value, _ast.Name) and c.func.value.id in ("self", "cls") and fn.cls is not None:
+                cand = self.prog.find_method(fn.cls, c.func.attr)
+                key = f"{cand.cls.name}.{c.func.attr}" if cand is not None and cand.cls is not None else c.func.attr
+            if cand is not None and key not in known and cand not in out and cand.node is not fn.node:
+                out.append(cand)
+        return out
 
     def prop_inline(self, fn, e, depth: int = 2):
         """`self.X` / `cls.X` where X is a property of fn's class (MRO) whose body is a single `return <expr>` is replaced by <expr>."""
